@@ -1,0 +1,41 @@
+//go:build verif
+
+// Contracts for the deductive verifier in /verif (govc). This file contains no code: with the
+// build tag off it is not part of the package, with it on it adds nothing to the build.
+package indexer
+
+//@ import common "github.com/ethereum/go-ethereum/common"
+
+// ---------------------------------------------------------------------------------------------
+// Key layout (C14). Two disjoint key families:
+//   hash key   = 0x01 ++ 32 hash bytes                                   (33 bytes)  -> marshalled TxResult
+//   index key  = 0x02 ++ be64(uint64(block number)) ++ be64(uint64(int64(eth tx index)))   (17 bytes)  -> 32 hash bytes
+// be64 is the big-endian codec of sdk.Uint64ToBigEndian / BigEndianToUint64 (assumed inverse pair, prelude).
+// Injectivity: hashBytes, be64 (be64_inverse) and the two's-complement conversions are injective and bcat is
+// cancellative for fixed-length parts (bcat_split); disjointness: the first byte (1 vs 2) and the length (33 vs 17).
+// ---------------------------------------------------------------------------------------------
+// Go's integer conversions: uint64(x) of a signed value, int64(x) of an unsigned one
+//@ ghost func asU64(v int) int = v < 0 ? v + pow2(64) : v
+//@ ghost func asI64(v int) int = v >= pow2(63) ? v - pow2(64) : v
+//@ ghost func txHashKeyOf(h common.Hash) bytes = bcat(b1(1), hashBytes(h))
+//@ ghost func txIndexKeyOf(n int, i int) bytes = bcat(bcat(b1(2), be64(asU64(n))), be64(asU64(i)))
+
+//@ func TxHashKey(hash common.Hash) []byte
+//@   modifies nothing
+//@   ensures[C14.hash_key_layout] len(result) == 33 && bsame(bytes(result), txHashKeyOf(hash)) && bat(bytes(result), 0) == 1
+//@   ensures[C14.hash_key_fresh] fresh(base(result))
+//@   panics never
+
+//@ func TxIndexKey(blockNumber int64, txIndex int32) []byte
+//@   modifies nothing
+//@   ensures[C14.index_key_layout] len(result) == 17 && bsame(bytes(result), txIndexKeyOf(blockNumber, txIndex)) && bat(bytes(result), 0) == 2
+//@   ensures[C14.index_key_roundtrip] bsame(bsub(bytes(result), 1, 9), be64(asU64(blockNumber))) && asI64(be64val(bsub(bytes(result), 1, 9))) == blockNumber
+//@   ensures[C14.index_key_fresh] fresh(base(result))
+//@   panics never
+
+// parse(TxIndexKey(h, i)) == h follows from index_key_roundtrip: the value computed here for a 17-byte key is exactly
+// asI64(be64val(bsub(key, 1, 9))).
+//@ func parseBlockNumberFromKey(key []byte) (n int64, err error)
+//@   modifies nothing
+//@   ensures[C14.parse_key] (err == nil) == (len(key) == 17) && (err == nil ==> n == asI64(be64val(bsub(bytes(key), 1, 9)))) && (err != nil ==> n == 0)
+//@   panics never
